@@ -14,8 +14,8 @@ use calamine::{Data, Range};
 
 pub const ID: &str = "C08";
 
-pub fn total_runs(ctx: &Ctx) -> u64 {
-    let n = ctx.corpus.len() as u64;
+pub fn total_runs(ctx: &mut Ctx) -> u64 {
+    let n = ctx.rotation().len() as u64;
     match ctx.tier {
         Tier::Quick => n * 160,
         Tier::Thorough => n * 8000,
@@ -132,8 +132,8 @@ fn candidates(ch: &mut Chooser, d: Option<&Range<Data>>) -> Vec<u32> {
 
 pub fn gen(ctx: &mut Ctx, idx: u64) -> (RunSpec, Cfg) {
     let seed = h3(ctx.seed, tag(ID), idx);
-    let nfiles = ctx.corpus.len() as u64;
-    let fx = ctx.corpus[(idx % nfiles) as usize].clone();
+    let rot = ctx.rotation();
+    let fx = ctx.corpus[rot[(idx % rot.len() as u64) as usize]].clone();
     let mut ch = Chooser::new(seed, "c08");
     let m = ctx.models.get(&fx);
     let entry = if ch.chance(1, 4) { Entry::Auto } else { Entry::own(fx.format) };
@@ -163,10 +163,31 @@ pub fn gen(ctx: &mut Ctx, idx: u64) -> (RunSpec, Cfg) {
             40..=64 => ops.push(Op::Range(SheetArg::Idx(target))),
             65..=74 if fx.format.is_lazy() => ops.push(Op::RangeRef(SheetArg::Idx(target))),
             65..=74 => ops.push(Op::RangeAt(target)),
-            75..=79 => ops.push(Op::Formula(SheetArg::Idx(ch.below(nsheets.max(1) as u64) as usize))),
-            80..=84 => ops.push(Op::Worksheets),
-            85..=89 => ops.push(Op::Meta),
-            90..=94 => ops.push(Op::MergeCells(SheetArg::Idx(target))),
+            75..=78 => ops.push(Op::Formula(SheetArg::Idx(ch.below(nsheets.max(1) as u64) as usize))),
+            79..=81 => ops.push(Op::Worksheets),
+            82..=83 => ops.push(Op::Meta),
+            84..=86 => ops.push(Op::MergeCells(SheetArg::Idx(target))),
+            // other APIs that read ranges internally or keep caches: none of them may touch the option
+            87..=94 if fx.format == Format::Xlsx => {
+                let nt = m.table_names.len() as u64;
+                match ch.below(6) {
+                    0 => ops.push(Op::LoadTables),
+                    1 | 2 => {
+                        ops.push(Op::LoadTables);
+                        ops.push(Op::TableByName(SheetArg::Idx(ch.below(nt + 1) as usize)));
+                    }
+                    3 => {
+                        ops.push(Op::LoadTables);
+                        ops.push(Op::TableByNameRef(SheetArg::Idx(ch.below(nt + 1) as usize)));
+                    }
+                    4 => {
+                        ops.push(Op::LoadMerged);
+                        ops.push(Op::MergedAll);
+                    }
+                    _ => ops.push(Op::Vba),
+                }
+            }
+            87..=94 => ops.push(if ch.chance(1, 2) { Op::Vba } else { Op::RangeAt(target) }),
             _ => {
                 // "can be changed back"
                 ops.push(Op::SetHeader(None));
@@ -420,8 +441,8 @@ pub fn final_spec(ctx: &mut Ctx, idx: u64) -> RunSpec {
     let seed = h3(ctx.seed, tag(ID), idx);
     let mut ch = Chooser::new(seed, "c08-faults");
     let n = ch.range(1, 3) as usize;
-    let first_set = spec.ops.iter().position(|o| matches!(o, Op::SetHeader(_))).map(|p| p + 1);
-    spec.delivery.faults = place_faults(&mut ch, &dry.op_events, n, first_set);
+    let prefer = preferred_calls(&spec.ops);
+    spec.delivery.faults = place_faults(&mut ch, &dry.op_events, n, &prefer);
     spec
 }
 
